@@ -79,6 +79,7 @@ Inductive case :=
 (* the real HTTPProxy.ServeHTTP: [present] = Lookup returned the target; [schemes] = registered
    scheme names with "these credentials are right" by construction of the htpasswd file;
    [split] = net.SplitHostPort(RemoteAddr); [xff] = all X-Forwarded-For field values;
+   e_ip holds net.ParseIP's answer for the zone-stripped text of the host and of every element;
    [sem] = net/netip meaning (zone dropped, unmapped) of the host and of every listed element;
    [ref_admit] = the harness's own netip decision; observables: status, upstream hits *)
 | CHttp (e : env) (present : bool) (auth : str) (schemes : list (str * bool))
@@ -118,21 +119,18 @@ Definition check_case (c : case) : N :=
                   | None => []
                   | Some host => host :: flat_map (fun v => map trim_space (split_byte v 44)) xff
                   end in
-      let first_strs := match split, xff with
-                        | Some host, v :: _ => host :: map trim_space (split_byte v 44)
-                        | Some host, [] => [host]
-                        | None, _ => []
-                        end in
+      (* route.parseIP: net.ParseIP of the text with its zone cut *)
+      let pipz := fun s => pip (strip_zone s) in
       let addrs := flat_map (fun s => match oracle sem s with Some a => [a] | None => [] end) strs in
       let admitted_ref := forallb (ref_admits (e_ref e)) addrs in
       let auth_ref := if is_nil auth then true else
                       match lookup schemes auth with Some b => b | None => false end in
-      (* [strict]: well-formed rule, every address string readable by net.ParseIP, one field
-         value.  There the decision is fully determined; elsewhere (the finding regions and
-         hostname peers) only the safe direction is demanded, so that a fail-closed repair
-         of the code does not alarm. *)
-      let strict := mok && forallb (fun s => is_some (pip s)) strs
-                    && (N.of_nat (List.length xff) <=? 1) in
+      (* [strict]: well-formed rule and every address string of the request is an address both
+         for the code (ParseIP after cutting the zone) and for net/netip.  There the decision is
+         fully determined; elsewhere (rule errors = region 1; hostname peers and garbage such as
+         "1.2.3.4%eth0", which the code reads as 1.2.3.4 and netip rejects) only the safe
+         direction is demanded, so that a fail-closed reading does not alarm. *)
+      let strict := mok && forallb (fun s => is_some (pipz s) && is_some (oracle sem s)) strs in
       let spec := if negb present then (hits =? 0) && (status =? 404) else
                   match split with
                   | None => hits =? 0
@@ -144,19 +142,20 @@ Definition check_case (c : case) : N :=
                       else (hits =? 1) && (status =? 200) && admitted_ref && auth_ref
                   end in
       let sane := rule_queries_ok e && ref_matches e && Bool.eqb admitted_ref ref_admit
-                  && forallb (covered (e_ip e)) first_strs && forallb (covered sem) strs
-                  (* netip's reading extends ParseIP's (and Coq's canon = netip's Unmap) *)
-                  && forallb (fun s => match pip s with
-                                       | Some ip => opt_eqb canon_eqb (oracle sem s) (Some (canon ip))
+                  && forallb (fun s => covered (e_ip e) (strip_zone s)) strs && forallb (covered sem) strs
+                  (* whatever netip reads as an address the code reads as the same address (zone
+                     cut, Coq's canon = netip's Unmap): no string is an address for the reference
+                     and nil for the code, which is why regions 2 and 3 are gone *)
+                  && forallb (fun s => match oracle sem s with
+                                       | Some a => match pipz s with
+                                                   | Some ip => canon_eqb a (canon ip)
+                                                   | None => false
+                                                   end
                                        | None => true
                                        end) strs in
-      (* region 2: net.ParseIP answers nil for the peer host (the nil IP is admitted), or for a
-         listed element that is an address (zone-scoped) *)
-      let zone := match split with Some host => negb (is_some (pip host)) | None => false end
-                  || existsb (fun s => is_some (oracle sem s) && negb (is_some (pip s))) strs in
-      let region := if zone then Some 2
-                    else if negb mok then Some 1
-                    else if (1 <? N.of_nat (List.length xff)) then Some 3 else None in
+      (* region 1 (F-C12-1): ProcessAccessRules returned an error.  Regions 2 (zone-scoped
+         addresses, f5e2970) and 3 (several field values, 273c6ed) were repaired and removed. *)
+      let region := if negb mok then Some 1 else None in
       if negb sane then v_disagree else
       verdict same spec region (present && (negb (rules_empty mr) || negb mok || negb (is_nil auth)))
   | CTcp e present proxy peer ref_admit dials =>
